@@ -152,14 +152,14 @@ def gen(ctx):
         add([v], pp, 'plain')
     pairs = list(itertools.product(pv, repeat=2))
     if not ctx.thorough:
-        pairs = [pr for pr in pairs if rnd.random() < (0.12 if pr[0]['fam'] != pr[1]['fam'] else 0.2)]
+        pairs = [pr for pr in pairs if rnd.random() < (0.08 if pr[0]['fam'] != pr[1]['fam'] else 0.13)]
     for combo in pairs:
         add(list(combo), pp, 'plain')
     for base, fam in ((PLAIN4, 4), (PLAIN6, 6)):
         tv = block_values(base, 2, fam)
         tp = block_probes(base, 2) + [PLAIN6 if fam == 4 else PLAIN4]
         for combo in itertools.product(tv, repeat=3):
-            if ctx.thorough or rnd.random() < 0.08:
+            if ctx.thorough or rnd.random() < 0.05:
                 add(list(combo), tp, 'plain')
     # the family keywords with and without ordinary values
     for g in ('all', 'ipv4', 'ipv6'):
@@ -227,7 +227,7 @@ def gen(ctx):
         if lo > (V4BASE + 5 if fam == 4 else 5) and fam_of(lo - 3) == fam:
             return val('range', lo - 3, lo + (hi - lo) // 3)                                       # partial overlap to the left
         return dict(v)
-    for _ in range(80 if ctx.thorough else 20):
+    for _ in range(80 if ctx.thorough else 12):
         n = rnd.choice([8, 50, 50, 100] if ctx.thorough else [8, 30, 50])
         vals, probes = [], set()
         for _ in range(n):
@@ -240,7 +240,7 @@ def gen(ctx):
         probes += [V4BASE | rnd.getrandbits(32) for _ in range(30)] + [(0x20010db8 << 96) | rnd.getrandbits(64) for _ in range(20)]
         probes = [p for p in probes if p not in SPECIAL]
         rnd.shuffle(probes)
-        add(vals, probes[:500 if ctx.thorough else 220], 'random', style=rnd.choice([0, 0, 1]))
+        add(vals, probes[:500 if ctx.thorough else 150], 'random', style=rnd.choice([0, 0, 1]))
     return cases, nplain, nbound
 
 
@@ -320,7 +320,7 @@ def run(ctx):
             raise vlib.MachineryError('driver echo differs from what was sent: %r' % (c['toks'][:5],))
         tcases.append({'vals': [tlc_val(v) for v in c['vals']], 'text': c['toks'], 'seen': o['seen'], 'out': o['out'], 'ub': o['ub']})
     prej, irej = ucheck.conformance(ctx, os.path.join(A.SPEC, 'Conf_IpAcl.tla'), os.path.join(A.SPEC, 'Conf_IpAcl.cfg'), tcases, 'ip',
-                                    chunk=4000 if ctx.thorough else 1400, timeout=3000)
+                                    chunk=4000 if ctx.thorough else 1000, timeout=3000)
     pairs = sum(len(o['out']) for o in outs)
     ctx.log('TLC evaluated %d lists / %d (list, address) pairs: P-rejected lists %d, I-rejected %d' % (len(outs), pairs, len(prej), len(irej)))
     # group the rejections by witness class; report the unexplained ('plain') ones first, at most two per class
@@ -371,8 +371,8 @@ def run(ctx):
                        '2-address blocks at ::, 0.0.0.0, 255.255.255.254, ffff:..:fffe and ::/0, every ordered list of <= 2. Random: seeded lists of 8..%d '
                        'values (v4 /8../32, v6 /32../128, dotted netmask spelling in a third of the lists) with planted duplicates, nested, adjacent, partially '
                        'overlapping and enclosing relatives, probed at every set edge +-1 and at random addresses of both families. A case (= list) is distinct by '
-                       'its token list; evaluations = (list, address) pairs.' % ('all' if ctx.thorough else 'a seeded sixth of the',
-                                                                                  'all' if ctx.thorough else 'a seeded twelfth of the', 100 if ctx.thorough else 50))
+                       'its token list; evaluations = (list, address) pairs.' % ('all' if ctx.thorough else 'a seeded tenth of the',
+                                                                                  'all' if ctx.thorough else 'a seeded twentieth of the', 100 if ctx.thorough else 50))
     ctx.assumptions += ['the legacy spellings 0/0, 0.0.0.0/0, 0.0.0.0/0.0.0.0, 0.0.0.0-255.255.255.255, 0.0.0.0-0.0.0.0/0 (documented aliases of "all") and host names are not configured',
                         'an IPv4 probe inside an IPv6 network that contains its IPv4-mapped form (only ::/0 here) may be answered either way (IpAcl!AnswerOk)',
                         'Ip::EnableIpv6 is set as on a dual-stack host; the driver reports the 16 address bytes of every probe as ACLIP::match received it and TLC decides on those',
